@@ -846,6 +846,13 @@ impl Axecutor {
         // envp[0] = NULL
         stack_layout.push(0);
 
+        // The frame (argc, argv, envp and their terminators) lives above the `length` bytes the
+        // caller asked for, plus 16 bytes of slack for the alignment of the stack pointer.
+        // Carving it out of `length` would leave less stack than requested and fail outright
+        // for small stacks or long argument lists.
+        let frame_length = (stack_layout.len() as u64) * 8;
+        let total_length = length + frame_length + 16;
+
         let mut stack_start: u64 = 0x1000;
         loop {
             if stack_start >= 0x7fff_ffff_ffff_ffff {
@@ -855,11 +862,7 @@ impl Axecutor {
             }
 
             if self
-                .mem_init_zero_named(
-                    stack_start,
-                    length + (stack_layout.len() as u64) * 8,
-                    "Stack".to_string(),
-                )
+                .mem_init_zero_named(stack_start, total_length, "Stack".to_string())
                 .is_ok()
             {
                 break;
@@ -868,12 +871,10 @@ impl Axecutor {
         }
 
         // TODO: auxiliary vector
-        // Make sure the stack is aligned to 16 bytes
-        let mut stack_top = (stack_start + length - 16) & !0xf;
-        if stack_layout.len() % 2 == 1 {
-            // However, if we push an uneven amount of 64 bit values, we need to adjust
-            stack_top -= 8;
-        }
+        // The frame is written downwards starting at the highest slot for which the resulting
+        // stack pointer (frame_length bytes below it) is aligned to 16 bytes
+        let mut stack_top = stack_start + total_length - 8;
+        stack_top -= (stack_top - frame_length) & 0xf;
 
         for val in stack_layout.iter().rev() {
             self.mem_write_64(stack_top, *val)?;
